@@ -7,6 +7,12 @@ for i in $(seq -w 1 20); do
   if ! lake build driver_c$i VOPyVerif.Props.C$i > /tmp/setup_c$i.log 2>&1; then
     echo "setup: C$i did not build (see its check)"; tail -5 /tmp/setup_c$i.log; fail=1
   fi
+  # source-agreement obligations (DESIGN §2.10) live in their own module where a property has them
+  if [ -f VOPyVerif/Props/C${i}Source.lean ]; then
+    if ! lake build VOPyVerif.Props.C${i}Source >> /tmp/setup_c$i.log 2>&1; then
+      echo "setup: C${i}Source did not build (see its check)"; tail -5 /tmp/setup_c$i.log; fail=1
+    fi
+  fi
 done
 echo "setup done (fail=$fail)"
 exit 0
